@@ -49,6 +49,24 @@ func VerifBackoffForAttempt(noJitter bool, base, factor, cap, attempt int) time.
 	return b.durationForAttempt(attempt)
 }
 
+// VerifBackoffOps drives ONE backoff value through a sequence of operations and returns the value of every
+// call that returns one: op[0] = 0: durationForAttempt(op[1]); 1: duration(); 2: reset().
+func VerifBackoffOps(noJitter bool, base, factor, cap int, ops [][2]int) []time.Duration {
+	b := backoff{NoJitter: noJitter, Base: base, Factor: factor, Cap: cap}
+	out := make([]time.Duration, 0, len(ops))
+	for _, op := range ops {
+		switch op[0] {
+		case 0:
+			out = append(out, b.durationForAttempt(op[1]))
+		case 1:
+			out = append(out, b.duration())
+		default:
+			b.reset()
+		}
+	}
+	return out
+}
+
 func VerifRoute(r *Router, s Sender, p stanza.Packet) { r.route(s, p) }
 
 func VerifKeepalive(t Transport, interval time.Duration, quit <-chan struct{}) {
